@@ -651,17 +651,17 @@ def c04(ctx):
                           {"assignments": 1, "boundary_pool": True, "full_placeholders": True, "max_assign": 150 if ctx.quick() else 3000, "event_every": 1000, "event_cap": 500,
                            "nontrivial_min_ops": 2, "only_models": ["i64", "num"]}],
                          compose={"quick": (3, 3), "thorough": (4, 4), "join": {"quick": (2, 3), "thorough": (3, 4)}}, machine={"evals": ["f64", "i64"], "quick": 4, "thorough": 6},
-                         extra_jobs=chain_jobs(ctx, EVALS))
+                         extra_jobs=(lambda profile: chain_jobs(ctx, EVALS)(profile) + jux_jobs(ctx, EVALS)(profile)))
 
 def c12(ctx):
     return grammar_check(ctx, {"meta_jux", "ok_on_reject", "ast"}, {"*": 5}, {"*": 6, "f64": 7},
                          {"assignments": 2, "extras": ["jux"], "event_every": 200, "event_cap": 1500, "nontrivial_min_ops": 1, "parser_events": True, "reject_suffixes": 1, "full_placeholders": True},
-                         compose={"quick": (3, 3), "thorough": (4, 4), "evals": ["f64", "i64", "dec"]})
+                         compose={"quick": (3, 3), "thorough": (4, 4), "evals": ["f64", "i64", "dec"]}, extra_jobs=jux_jobs(ctx, EVALS))
 
 def c13(ctx):
     return grammar_check(ctx, {"meta_ws", "meta_alias", "meta_notation", "meta_sup", "meta_plus", "meta_wrap", "ast"}, {"*": 4}, {"*": 5, "f64": 6},
                          {"assignments": 2, "all_functions": True, "extras": ["spellings"], "event_every": 200, "event_cap": 1500, "nontrivial_min_ops": 1, "full_placeholders": True},
-                         lexer={"alphabets": ["lit", "kw1", "kw2"], "k_quick": 3, "k_thorough": 4, "invs": ["WsInvariant"]})
+                         lexer={"alphabets": ["lit", "kw1", "kw2"], "k_quick": 3, "k_thorough": 4, "invs": ["WsInvariant"]}, extra_jobs=jux_jobs(ctx, EVALS))
 
 def c14(ctx):
     return grammar_check(ctx, {"value", "meta_ans", "ok_on_reject", "ast"}, {"*": 4}, {"*": 5, "f64": 6},
@@ -981,6 +981,11 @@ def c07(ctx):
                          {"assignments": 1, "boundary_pool": True, "full_placeholders": True, "max_assign": 700 if q else 8000,
                           "event_every": 500, "event_cap": 2000, "nontrivial_min_ops": 1, "scope": SCOPE_C07}, evals=["dec"], invs=[], compose={"quick": (4, 3), "thorough": (4, 4), "chains": {"quick": (6, 8, 40), "thorough": (200, 10, 60)}, "join": {"quick": (3, 3), "thorough": (3, 4)}},
                          sem={"dec": {"quick": (2, 1, 3, 3), "thorough": (2, 2, 4, 1)}, "invs": ("C07Exact",)}, extra_jobs=(lambda profile: chain_jobs(ctx, ["dec"])(profile) + cpx_fn_jobs(ctx, profile, e="dec", only_functions=SCOPE_C07["fns"])))
+
+def jux_jobs(ctx, evals):
+    """implicit products beyond the token bound (every left factor x right factor x suffix x operator to the left, also inside brackets of
+    each kind): every call is an event the trace specification judges - verdict, syntax tree, step counts"""
+    return lambda profile: ([base_job(ctx, "juxcorpus", "%s_jux_%s" % (profile, e), profile, e=e, event_every=1, event_cap=100000) for e in evals] if profile == "debug" else [])
 
 def chain_jobs(ctx, evals):
     """long left-leaning chains of one precedence level (30-70 terms): grouping by associativity beyond any token bound"""
